@@ -502,6 +502,44 @@ def run_word(M, case):
             got = p.is_exact_match(w)
             M.expect(got == exp, 'meta:accepts-invalid' if got else 'meta:rejects-valid', '%s.is_exact_match(%r) is %r' % (what, w, got), 'word-exact')
             M.expect(not p.is_exact_match(w + ' ' + w), 'meta:accepts-invalid', '%s exactly matches two words' % what, 'word-exact')
+    # is_global decides whether foreign word characters count (decided on texts with non-ASCII words)
+    def gwords(text, glob):
+        runs = re.findall(r'\w+', text)
+        return runs if glob else [w for w in runs if w.isascii()]
+    NONASCII = ['füring', 'éx', 'xé', 'Γειά', 'naïve', 'ab', 'ing', 'Жук9', 'a_é', 'żółw', 'xing', 'éing', 'ingé']
+    if p is not None:
+        for _ in range(3):
+            t = ' '.join(rnd.sample(NONASCII, 5)) + rnd.choice(['', '.', ' é'])
+            exp = [w for w in gwords(t, g) if len(w) >= mn and (mx is None or len(w) <= mx)]
+            got = p.get_matches(t)
+            M.expect(got == exp, 'meta:wrong-matches', '%s.get_matches(%r) = %r, expected %r (is_global=%r)' % (what, t, got, exp, g), 'word-global')
+    for cls, pred, nm in [(ME.WordContains, lambda w: 'ing' in w or 'é' in w, 'contains'), (ME.WordStartsWith, lambda w: w.startswith('ing') or w.startswith('é'), 'starts'),
+                          (ME.WordEndsWith, lambda w: w.endswith('ing') or w.endswith('é'), 'ends')]:
+        q = M.build('%s([ing, é], is_global=%r)' % (cls.__name__, g), lambda: cls(['ing', 'é'], is_global=g))
+        if q is None:
+            continue
+        for _ in range(2):
+            t = ' '.join(rnd.sample(NONASCII, 6))
+            # with is_global=False only ASCII word characters may surround the affix; the affix itself is literal
+            exp = []
+            for w in re.findall(r'\w+', t):
+                if not pred(w):
+                    continue
+                if g:
+                    exp.append(w)
+                else:
+                    rest_ok = False
+                    for a in ('ing', 'é'):
+                        for mm in re.finditer(re.escape(a), w):
+                            pre, post = w[:mm.start()], w[mm.end():]
+                            ok_pos = {'contains': True, 'starts': pre == '', 'ends': post == ''}[nm]
+                            if ok_pos and pre.isascii() and post.isascii():
+                                rest_ok = True
+                    if rest_ok:
+                        exp.append(w)
+            got = q.get_matches(t)
+            M.expect(got == exp, 'meta:wrong-matches', '%s([ing, é], is_global=%r).get_matches(%r) = %r, expected %r' % (cls.__name__, g, t, got, exp),
+                     'affix-global')
     # affix classes, word-character affixes: behavioural model
     aff = [''.join(rnd.choice('abcXY01') for _ in range(rnd.choice([1, 2]))) for _ in range(rnd.choice([1, 2, 3]))]
     arg = aff if rnd.random() < 0.7 else aff[0]
